@@ -97,8 +97,18 @@ def run(tier, seed):
     # the id of a credential is compared with THE encoding of its raw id (anchor sites in verify_*): every other spelling that merely
     # decodes to the same bytes is refused
     from harness import impl, authcat, authsim, regsim, regrun
-    for cid in (b"\xfb\xff\xfe", b"\xfb\xff\xfe\x01", b"\xfb\xff\xfe\x01\x02", rng.randbytes(16), rng.randbytes(32)):
+    for cid in (b"\xfb\xff\xfe", b"\xfb\xff\xfe\x01", b"\xfb\xff\xfe\x01\x02", rng.randbytes(16), rng.randbytes(32), b"\xff\xff\xff", b"\xfb\xef\xbe", b"\xff" * 18, b"\xfb\xef\xbe" * 7,
+                b"\x00", b"\x00" * 3, b"\xd3\x4d\x34", b"i\xb7\x1d"):
         good = authsim.b64u(cid)
+        # THE encoding of the raw id is accepted - also when it consists only of '-' / '_' / digits / 'A's
+        sc = authcat.Scn("ES256-P256"); sc.cred_id = cid
+        pol, a = sc.build()
+        rs = regsim.RScn("none", "ES256-P256"); rs.cred_id = cid
+        pd, reg = regsim.build(rs)
+        for cer, o in (("authentication", impl.verify_auth(pol, a.as_record())), ("registration", impl.verify_reg(regrun.policy_of(pd), reg.as_record()))):
+            chk.evals += 1
+            if not o.startswith("OK"):
+                chk.violation(f"{cer}: credential whose id {good!r} IS the base64url encoding of its raw id refused", f"id-canonical-refused {cer} {good[:8]}", {"op": "id", "ceremony": cer, "raw_id": cid.hex(), "id": good, "impl": o[:120]})
         twin = good[:-1] + "ABCDEFGHIJKLMNOPQRSTUVWXYZabcdefghijklmnopqrstuvwxyz0123456789-_"[("ABCDEFGHIJKLMNOPQRSTUVWXYZabcdefghijklmnopqrstuvwxyz0123456789-_".index(good[-1])) ^ 1]
         spell = {"padded-1": good + "=", "padded-2": good + "==", "dot-inserted": good[:2] + "." + good[2:], "newline-appended": good + "\n",
                  "standard-alphabet": good.replace("-", "+").replace("_", "/"), "last-char-spare-bits": twin, "space-prefixed": " " + good}
